@@ -4,9 +4,10 @@ import json
 import lang
 
 
-def impl_requests(progs, H, extra_text=None, limit=0, hmax=None):
+def impl_requests(progs, H, extra_text=None, limit=0, hmax=None, default_config=False):
     """hmax: per-program largest horizon worth running (e.g. the oracle's bit bound); limit: answer sets enumerated per horizon (0 = all)"""
-    return [{'cmd': 'solve', 'texts': [lang.prog_txt(p) + (extra_text or '')], 'imax': (H if hmax is None else min(H, hmax[i])) + 1, 'istop': 'UNKNOWN', 'limit': limit}
+    return [{'cmd': 'solve', 'texts': [lang.prog_txt(p) + (extra_text or '')], 'imax': (H if hmax is None else min(H, hmax[i])) + 1, 'istop': 'UNKNOWN', 'limit': limit,
+             'default_config': default_config}
             for i, p in enumerate(progs)]
 
 
@@ -20,10 +21,10 @@ def impl_models_by_h(ans, A, H):
     return {h: sorted(v) for h, v in by.items()}
 
 
-def compare(ctx, progs, H, maxbits=12, timeout=30, cmd='tsm', atoms_extra=None):
+def compare(ctx, progs, H, maxbits=12, timeout=30, cmd='tsm', atoms_extra=None, default_config=False):
     """returns one record per program: status in agree / differ / implerror / skip / oracleerror"""
     hmax = [max(0, maxbits // max(1, lang.atoms_of(p).n() + len(atoms_extra or [])) - 1) for p in progs]
-    impl = ctx.impl().run(impl_requests(progs, H, hmax=hmax), timeout=timeout)
+    impl = ctx.impl().run(impl_requests(progs, H, hmax=hmax, default_config=default_config), timeout=timeout)
     lines, index = [], []
     As = []
     for i, p in enumerate(progs):
